@@ -110,12 +110,12 @@ def component_alphabet(rank):
     if rank == 1:
         valid.append(("norm", lambda T: np.sqrt((T ** 2).sum(axis=-1))))
         valid.append(("sq", lambda T: (T ** 2).sum(axis=-1)))
-        invalid += [("too_long_string", "xx"), ("wrong_keyword", "trace"), ("unknown_letter", "w"),
+        invalid += [("too_long", "xx"), ("too_long", (0, 1)), ("wrong_keyword", "trace"), ("unknown_letter", "w"),
                     ("not_str_or_tuple", 5), ("tuple_out_of_range", (3,))]
     else:
         valid.append(("trace", lambda T, r=rank: sum(T[(Ellipsis,) + (i,) * r] for i in range(3))))
         valid.append(("TRACE", lambda T, r=rank: sum(T[(Ellipsis,) + (i,) * r] for i in range(3))))
-        invalid += [("too_long_string", "x" * (rank + 1)), ("too_long_string", "xy" + "z" * (rank - 1)),
+        invalid += [("too_long", "x" * (rank + 1)), ("too_long", "xy" + "z" * (rank - 1)), ("too_long", (0,) * (rank + 1)),
                     ("wrong_keyword", "norm"), ("unknown_letter", "x" * (rank - 1) + "w"),
                     ("tuple_out_of_range", (0,) * (rank - 1) + (3,)), ("not_str_or_tuple", 7)]
     return valid, invalid
